@@ -1701,6 +1701,57 @@ def mon_c12(case_line, acts):
     return out
 
 
+def mon_c12_usable(case_line, acts):
+    """C12 'leaves the session fully usable', for any history and amount of retained data: after a successful connect() to a
+    FRESH broker session nothing is retained, released or queued, so the session is as usable as a new one - a publish is
+    not refused as NotReady, and a request that this client accepted earlier in the case while its lists were equally
+    empty, under a CONNACK with the same properties, is accepted again (seeded C12-r10 leaked the byte count of packets
+    dropped by the session reset into the capacity accounting)."""
+    out = []
+    case = parse_case(case_line)
+    if case is None or len(case['actions']) != len(acts):
+        return out
+    def empty(st):
+        return st and st.get('ret') == '[]' and st.get('rel') == '[]' and st.get('ctl', '[]') == '[]' and st.get('live') == '1'
+    def healthy(b):
+        return all(not (e[0] == 'w' and not e[2]) and not (e[0] == 'f' and e[1] != 'ok')
+                   and not (e[0] == 'r' and (e[2] is None and e[3] != 'drop')) for e in b.events) \
+            and not any(e[0] == 't' for e in b.events)
+    props_now = None          # property section of the CONNACK of the current connection
+    fresh_at = None
+    accepted = {}             # (request, CONNACK properties) accepted on an empty session
+    for i, a in enumerate(acts):
+        code, req = case['actions'][i]
+        res = a.result or ''
+        if code == 0:
+            props_now = None; fresh_at = None
+            inb = b''.join(bytes.fromhex(e[3]) for e in a.events if e[0] == 'r' and e[2])
+            pk = parse_server_packets(inb)
+            if res.startswith('ok') and len(pk) == 1 and (pk[0][0] >> 4) == 2 and connack_conformant(pk[0][1]) is not None:
+                props_now = bytes(pk[0][1][2:])
+                if res == 'ok connected' and empty(a.state):
+                    fresh_at = i
+            continue
+        if code != 1 or props_now is None or i == 0:
+            fresh_at = None if code != 6 else fresh_at
+            continue
+        prev = acts[i - 1].state
+        key = (repr(sorted(req.items())), props_now)
+        if fresh_at is not None and fresh_at == i - 1 and healthy(a):
+            if res.startswith('err NotReady'):
+                out.append(V('publish at action #%d, the first operation on a fresh session with nothing retained or queued, is '
+                             'refused: %s' % (i, res)))
+                return out
+            if key in accepted and res.startswith('err ') and res.split(' ')[1] in ('BufferTooSmall', 'InflightExhausted', 'PacketTooLarge'):
+                out.append(V('publish at action #%d on a fresh, empty session is refused (%s); the same request was accepted at '
+                             'action #%d by the same client when it was equally empty' % (i, res, accepted[key])))
+                return out
+        if res.startswith('ok') and empty(prev) and key not in accepted:
+            accepted[key] = i
+        fresh_at = None
+    return out
+
+
 # ---------------------------------------------------------------- twins: C15 (fragmentation), C13 (cancellation)
 def _wire_by_conn(acts):
     return [bytes(c['wire']) for c in connections(acts)]
